@@ -50,6 +50,13 @@ func RandMsgTree(r *rand.Rand) (files map[string]string, tops []string) {
 	for i := 0; i < n; i++ {
 		names = append(names, fmt.Sprintf("%s/msg/T%d", pkgs[r.Intn(len(pkgs))], i))
 	}
+	// type names of which one is a suffix of another in the same package and sorts after it in the
+	// package's resource index (like sensor_msgs CompressedImage / Image)
+	if r.Intn(2) == 0 {
+		j := r.Intn(len(names))
+		p := strings.Split(names[j], "/")
+		names = append(names, p[0]+"/msg/A"+p[2], p[0]+"/msg/Compressed"+p[2])
+	}
 	for i, full := range names {
 		pkg := strings.Split(full, "/")[0]
 		var sb strings.Builder
